@@ -1,4 +1,4 @@
-import IstioModel.C15.PodEvents
+import IstioModel.C15.Recompute
 
 /-!
 # C15 - property theorems
@@ -55,7 +55,7 @@ def GoodStep (c : Ctl) : Op → Prop
       WF c ∧ ∀ o, findSvc c.svcs ns name = some o → SvcIrrelevant c o.host (some o) none
   | .pod v =>
       WF { c with pods := upsertBy (fun x => x.ns = v.ns ∧ x.name = v.name) v c.pods } ∧
-      NoCachedAddr c ∧ (∀ c', stepC c (.pod v) = some c' → NoCachedAddr c') ∧ PodGood c v
+      NoCachedAddr c ∧ (∀ c', stepC c (.pod v) = some c' → NoCachedAddr c') ∧ (PodGood c v ∨ PodLabelGood c v)
   | .delPod ns name =>
       WF c ∧ NoCachedAddr c ∧ (∀ c', stepC c (.delPod ns name) = some c' → NoCachedAddr c') ∧ PodDelGood c ns name
   | .node v =>
@@ -75,7 +75,10 @@ theorem handlers_preserve_inv (c : Ctl) (op : Op) (c' : Ctl)
   | delSlice ns name => exact slice_delete_inv c ns name c' hstep hinv hgood
   | svc v => exact svc_write_inv c v c' hstep hinv hgood.1 hgood.2
   | delSvc ns name => exact svc_delete_inv c ns name c' hstep hinv hgood.1 hgood.2
-  | pod v => exact pod_write_inv c v c' hstep hinv hgood.1 hgood.2.1 (hgood.2.2.1 c' hstep) hgood.2.2.2
+  | pod v =>
+    cases hgood.2.2.2 with
+    | inl hg => exact pod_write_inv c v c' hstep hinv hgood.1 hgood.2.1 (hgood.2.2.1 c' hstep) hg
+    | inr hg => exact pod_label_edit_inv c v c' hstep hinv hgood.1 hgood.2.1 hg
   | delPod ns name =>
     exact pod_delete_inv c ns name c' hstep hinv hgood.1 hgood.2.1 (hgood.2.2.1 c' hstep) hgood.2.2.2
   | node v =>
